@@ -43,10 +43,11 @@ type Op struct {
 }
 
 type Case struct {
-	Kind int       `json:"kind"` // 0 array (+twin), 1 array-like object
-	Init []*uint64 `json:"init"`
-	Ops  []Op      `json:"ops"`
-	Twin []int     `json:"twin,omitempty"` // before these op positions the twin's storage is toggled
+	Kind   int       `json:"kind"` // 0 array (+twin), 1 array-like object
+	Init   []*uint64 `json:"init"`
+	Ops    []Op      `json:"ops"`
+	Twin   []int     `json:"twin,omitempty"`   // before these op positions the twin's storage is toggled
+	Strict bool      `json:"strict,omitempty"` // corpus cases of recorded findings: compared with S only
 }
 
 const prelude = `"use strict";
@@ -154,7 +155,7 @@ var H = {
   copyWithin: function (a, op) { return ('en' in op ? AP.copyWithin.call(a, op.t || 0, op.st || 0, op.en) : AP.copyWithin.call(a, op.t || 0, op.st || 0)) === a; },
   slice: function (a, op) { return view('en' in op ? AP.slice.call(a, op.st || 0, op.en) : AP.slice.call(a, op.st || 0)); },
   concat: function (a, op) {
-    var args = Array.from(op.items || [], function (it) { var r = []; r.length = it.length; for (var i = 0; i < it.length; i++) { var v = it[i]; if (v !== null && v !== undefined) cdp(r, i, v === 0 ? undefined : v); } return r; });
+    var args = Array.from(op.items || [], function (it) { it = it || []; var r = []; r.length = it.length; for (var i = 0; i < it.length; i++) { var v = it[i]; if (v !== null && v !== undefined) cdp(r, i, v === 0 ? undefined : v); } return r; });
     return view(AP.concat.apply(a, args));
   },
   concatv: function (a, op) { return view(AP.concat.call(a, op.v === 0 ? undefined : op.v)); },
@@ -175,6 +176,13 @@ function mk(kind, init) {
   return [a, P];
 }
 function nonconf(a, k) { var d = Object.getOwnPropertyDescriptor(a, k); return d !== undefined && !d.configurable; }
+function simple(a, P) {
+  if (!Object.isExtensible(a)) return false;
+  var ks = Object.keys(P); for (var i = 0; i < ks.length; i++) if (String(Number(ks[i])) === ks[i]) return false;
+  var pk = Object.getOwnPropertyNames(P); for (var i = 0; i < pk.length; i++) if (String(Number(pk[i])) === pk[i]) return false;
+  var l = a.length; for (var i = 0; i < l; i++) { var d = Object.getOwnPropertyDescriptor(a, i); if (d && !(('value' in d) && d.writable && d.enumerable && d.configurable)) return false; }
+  return true;
+}
 function toSparse(a) {
   var l = a.length, ld = Object.getOwnPropertyDescriptor(a, 'length');
   if (!Object.isExtensible(a) || !ld.writable || l > 2000000000) return false;
@@ -262,6 +270,12 @@ func num(v interface{}) int64 {
 func (vr *variant) nonconf(k uint64) bool {
 	f, _ := goja.AssertFunction(vr.rt.Get("nonconf"))
 	v, err := f(goja.Undefined(), vr.a, vr.rt.ToValue(float64(k)))
+	return err == nil && v.ToBoolean()
+}
+
+func (vr *variant) simple() bool {
+	f, _ := goja.AssertFunction(vr.rt.Get("simple"))
+	v, err := f(goja.Undefined(), vr.a, vr.P)
 	return err == nil && v.ToBoolean()
 }
 
@@ -412,6 +426,8 @@ func opTerm(op Op, extra string) string {
 		return "OSortObs " + extra
 	case "export":
 		return "OExport"
+	case "noop":
+		return "OToggle"
 	}
 	panic("unknown op " + op.O)
 }
@@ -501,7 +517,7 @@ func (vr *variant) exec(op Op, kind int) (resT, opT, dumpT string) {
 				}
 			case "has", "includes":
 				resT = fmt.Sprintf("RB %s", vh.CoqBool(val == true))
-			case "freeze", "seal", "prevent", "proto":
+			case "freeze", "seal", "prevent", "proto", "noop":
 				resT = "RU"
 			case "push", "unshift":
 				resT = fmt.Sprintf("RV %d", num(val))
@@ -567,7 +583,7 @@ func (vr *variant) toggle() string {
 	return kind + "->" + goja.VerifArrayKind(vr.a)
 }
 
-const failTerm = "(mkCase 0 [] [OPop] [] [] [])%N"
+const failTerm = "(mkCase true 0 [] [OPop] [] [] [])%N"
 
 func coqInit(init []*uint64) string {
 	xs := make([]string, len(init))
@@ -596,6 +612,15 @@ func runCase(c Case) vh.Record {
 	nontrivial := false
 	sawSortRand := false
 	for i, op := range c.Ops {
+		if op.O == "deflen" && op.D != nil && (op.D.G != nil || op.D.S != nil) && (op.L != nil || op.D.W != nil) {
+			// ToPropertyDescriptor rejects a descriptor with both kinds of fields before the object is reached
+			op.D = &Desc{G: op.D.G, S: op.D.S, E: op.D.E, C: op.D.C}
+			op.L = nil
+		}
+		if c.Kind == 1 && op.O == "def" && op.D != nil && (op.D.G != nil || op.D.S != nil) {
+			// accessors on plain objects (and the kind conversions of _defineOwnProperty) belong to C04
+			continue
+		}
 		if c.Kind == 1 && (op.O == "deflen" || op.O == "export" || op.O == "concat" || op.O == "concatv" || (op.O == "setlen" && op.Inv)) {
 			continue
 		}
@@ -610,11 +635,20 @@ func runCase(c Case) vh.Record {
 			tags["skipped-looping-op-on-long-array"] = true
 			continue
 		}
+		if op.O == "sortrand" && !normal.simple() {
+			// an arbitrary comparator is only used where sort cannot fail half-way (the order of the partial
+			// effects would be implementation-defined); otherwise a consistent comparator is used
+			op = Op{O: "sort", Ck: 2}
+		}
 		if twin != nil && twinAt[i] {
 			tr := twin.toggle()
 			tags["twin:"+tr] = true
-			if strings.HasPrefix(tr, "dense->sparse") || strings.HasPrefix(tr, "sparse->dense") {
+			if tr == "dense->sparse" || tr == "sparse->dense" {
 				nontrivial = true
+				// the toggle is an op of the twin's history: its observation shows that switching is invisible
+				rt, _, dt := twin.exec(Op{O: "noop"}, 0)
+				opsT = append(opsT, "OToggle "+vh.CoqBool(tr == "dense->sparse"))
+				obsT = append(obsT, fmt.Sprintf("Ob (%s) %s", rt, dt))
 			}
 		}
 		r, o, d := normal.exec(op, c.Kind)
@@ -656,7 +690,7 @@ func runCase(c Case) vh.Record {
 		tags["twin-own-sort-log"] = true
 	}
 	_ = sawSortRand
-	term := fmt.Sprintf("(mkCase %d %s %s %s %s %s)%%N", c.Kind, coqInit(c.Init), vh.CoqList(opsN), vh.CoqList(obsN), vh.CoqList(opsT), vh.CoqList(obsT))
+	term := fmt.Sprintf("(mkCase %s %d %s %s %s %s %s)%%N", vh.CoqBool(c.Strict), c.Kind, coqInit(c.Init), vh.CoqList(opsN), vh.CoqList(obsN), vh.CoqList(opsT), vh.CoqList(obsT))
 	var tl []string
 	for t := range tags {
 		tl = append(tl, t)
@@ -748,7 +782,7 @@ func genOp(r *vh.Rng, curLen int, allowSortRand bool) Op {
 	if l > 40 {
 		l = 40
 	}
-	switch r.Pick(16, 9, 14, 5, 8, 4, 3, 1, 1, 1, 4, /*methods*/ 4, 3, 3, 3, 4, 2, 3, 3, 3, 2, 1, 2, 2, 4, 1, 2) {
+	switch r.Pick(16, 9, 14, 5, 8, 4, 3, 1, 1, 1, 4 /*methods*/, 4, 3, 3, 3, 4, 2, 3, 3, 3, 2, 1, 2, 2, 4, 1, 2) {
 	case 0:
 		return Op{O: "set", R: refl, K: genIdx(r, curLen), V: genVal(r)}
 	case 1:
@@ -955,7 +989,7 @@ func main() {
 	defer w.Close()
 	switch m.Cmd {
 	case "gen":
-		r := vh.NewRng(m.Seed)
+		r := vh.NewRng(m.Seed*2685821657736338717 + 11).Fork() // vh.NewRng streams of consecutive seeds are shifted copies: decorrelate
 		for i := 0; i < m.N; {
 			c := genCase(r)
 			emit(w, c)
